@@ -3,7 +3,7 @@
 A behaviour = design configuration (cfg) + list of (event, expected values).  The design is rendered
 syntactically: submodule S with r1 (domain d1), r2 (domain d2, reset_less), both loading input d, wrapped in the
 stack of ResetInserter / EnableInserter / DomainRenamer; r3 in domain A at the top level."""
-from amaranth.hdl import (Signal, Module, ClockDomain, Cat, ResetInserter, EnableInserter, DomainRenamer)
+from amaranth.hdl import (Signal, Module, ClockDomain, Cat, ResetInserter, EnableInserter, DomainRenamer, signed)
 from amaranth.sim import Simulator
 
 
@@ -26,7 +26,7 @@ def build(cfg):
             setattr(s.domains, name, cds[name])
     s.d[cfg["d1"]] += r1.eq(d)
     s.d[cfg["d2"]] += r2.eq(d)
-    r4 = Signal(2, name="r4", init=3)          # one signal, bits split between the two domains
+    r4 = Signal(signed(2), name="r4", init=-1)    # one (signed) signal, bits split between the two domains
     s.d[cfg["d1"]] += r4[0].eq(d)
     s.d[cfg["d2"]] += r4[1].eq(d)
     # a one-bit memory row inside S: write port in d1 (data d), read port in d2, transparent read port in d1
@@ -76,7 +76,9 @@ def run(cfg, events):
                 ctx.set(Cat(sigs["clkA"], sigs["clkB"]), ev[1] | (ev[2] << 1))
             else:
                 ctx.set(sigs[ev[1]], ev[2])
-            out.append((ctx.get(sigs["r1"]), ctx.get(sigs["r2"]), ctx.get(sigs["r3"]), ctx.get(sigs["r4"]),
+            v4 = ctx.get(sigs["r4"])            # the model speaks of the bit pattern of the (signed) split register
+            v4 = v4 & 3 if -2 <= v4 <= 1 else ("not a value of signed(2)", v4)
+            out.append((ctx.get(sigs["r1"]), ctx.get(sigs["r2"]), ctx.get(sigs["r3"]), v4,
                         ctx.get(sigs["mw"]), ctx.get(sigs["mr"]), ctx.get(sigs["mt"])))
 
     sim.add_testbench(tb)
